@@ -1,7 +1,11 @@
 (** C19 — Observability data reaches the metrics endpoint unaltered.
     Only statements closed by [exact]; proofs live in Obs/*Lemmas.v. *)
 From Coq Require Import Ascii String.
+From SV Require Exporter.AcceptLemmas.
 From SV Require Import Obs.MetricSpec Obs.ObsCases Obs.TableLemmas Obs.JsonLemmas Obs.PromLemmas.
+Module AL := SV.Exporter.AcceptLoop.
+Module AC := SV.Exporter.AcceptCases.
+Module AP := SV.Exporter.AcceptLemmas.
 
 (** * The metric table translated from format.rs (regenerated on every run) *)
 
@@ -66,6 +70,46 @@ Theorem C19_content_length_ok : forall b,
                  [(s2c "content-type", s2c "text/plain");
                   (s2c "content-length", print_int (Z.of_nat (length b)))] b).
 Proof. exact content_length_ok. Qed.
+
+(** * The response buffer lives across requests (exporter.rs [main])
+
+    [format_response] APPENDS to a String that is declared outside the accept
+    loop; the model of that loop (Exporter/AcceptLoop.v, [step_impl]) carries it
+    as state.  A connection script names what its handler call appended
+    ([HOk out]: the response formatted for the observation JSON served for THAT
+    request - by the byte-exact tie of this property [out] is [respond s ft] of
+    Obs/Prom.v).  The theorems say that what a client receives is a function of
+    its own request alone, after ANY history. *)
+
+(** Everything that reaches any client, for EVERY list of connection scripts
+    (premature closes, oversize, resets before and after the request was read,
+    failing handlers, failing writes): one byte string per well-formed GET whose
+    client is still there - [out] of its own handler call (200) or the constant
+    500 response - and nothing else. *)
+Theorem C19_wire_fresh : forall items,
+  AC.no_accept_err items = true -> AL.run_wire items = AC.expected_wire items.
+Proof. exact AP.wire_fresh_impl. Qed.
+
+(** No reply contains bytes of an earlier reply: two arbitrary histories give the
+    same bytes for the same final request, namely its own handler's output. *)
+Theorem C19_reply_is_own_observation : forall pre pre' last,
+  AC.no_accept_err pre = true -> AC.no_accept_err pre' = true -> AC.wellformed_get last = true ->
+  List.last (AL.run_wire (pre ++ [AL.Conn last])) [] = AC.reply_bytes (AL.c_hnd last)
+  /\ List.last (AL.run_wire (pre' ++ [AL.Conn last])) [] = AC.reply_bytes (AL.c_hnd last).
+Proof. exact AP.reply_independent_of_history_impl. Qed.
+
+(** The statement is sensitive to where the buffer is cleared: the loop that
+    clears "after a successful write" instead of "before the handler call"
+    (never the code of /repo) answers the request after a client reset with the
+    STALE response followed by the new one, for ALL handler outputs - with the
+    same status codes and the same final state. *)
+Theorem C19_clear_after_write_refuted : forall o1 o2,
+  AL.run_wire_with AL.step_clear_after_write (AP.reset_then_get o1 o2) = [o1 ++ o2]
+  /\ AL.run_wire_with AL.step_fixed (AP.reset_then_get o1 o2) = [o2]
+  /\ AC.expected_wire (AP.reset_then_get o1 o2) = [o2]
+  /\ AL.run_with AL.step_clear_after_write (AP.reset_then_get o1 o2)
+     = AL.run_with AL.step_fixed (AP.reset_then_get o1 o2).
+Proof. exact AP.clear_after_write_refuted. Qed.
 
 (** Non-vacuity: a slave state with a Duration whose bits exceed 64 bits, a
     path trace, a P2P port and an absent UTC offset is well formed, its tokens
